@@ -362,7 +362,9 @@ def counting_loop(F, ev, path, st0):
     if not (isinstance(it0, tuple) and it0 and it0[0] == "struct" and it0[1].endswith("ops::Range")):
         return None, "the `for` does not iterate over a plain range a..b (possibly through map / filter)"
     start, bound = symex.sfield(it0, "start"), symex.sfield(it0, "end")
-    arms = [a for n in walk(loop["body"]) if n.get("k") == "match" for a in n["arms"] if a["pat"].get("k") == "variant" and a["pat"].get("variant") == "Some"]
+    # the `Some(x) => body` arm of the desugared `for`: the match on the iterator's `next()`, not a match in the body
+    arms = [a for n in walk(loop["body"]) if n.get("k") == "match" and strip(n["scrut"]).get("k") == "call" and (callee_path(strip(n["scrut"])) or "").endswith("::next")
+            for a in n["arms"] if a["pat"].get("k") == "variant" and a["pat"].get("variant") == "Some"]
     if len(arms) != 1:
         return None, "loop arm not found"
     sub = [sp["pat"] for sp in arms[0]["pat"].get("subs", [])]
